@@ -14,11 +14,23 @@ type vFaultFile struct {
 	failCall int // index of the ReadAt/WriteAt call that fails (-1: none)
 	calls    int
 	failOff  int64
+	failMask uint // set of failing offsets (bit o: every call at offset o fails, with vFaultCode(o))
+}
+
+// distinguishable errors for a set of failing offsets
+func vFaultCode(off int64) error {
+	if off%2 == 0 {
+		return ErrSSHFxFailure
+	}
+	return ErrSSHFxPermissionDenied
 }
 
 func (f *vFaultFile) ReadAt(b []byte, off int64) (int, error) {
 	k := f.calls
 	f.calls++
+	if off < 8 && f.failMask&(1<<uint(off)) != 0 {
+		return 0, vFaultCode(off)
+	}
 	if k == f.failCall {
 		f.failOff = off
 		return 0, ErrSSHFxFailure
@@ -29,6 +41,9 @@ func (f *vFaultFile) ReadAt(b []byte, off int64) (int, error) {
 func (f *vFaultFile) WriteAt(b []byte, off int64) (int, error) {
 	k := f.calls
 	f.calls++
+	if off < 8 && f.failMask&(1<<uint(off)) != 0 {
+		return 0, vFaultCode(off)
+	}
 	if k == f.failCall {
 		f.failOff = off
 		return 0, ErrSSHFxFailure
